@@ -92,6 +92,11 @@ CHECKS = {
     technique="z3 identity check of every registered intermediate's expanded definition (once and fully expanded; default, permuted and numbered index tuples) against explicit RSPT amplitudes / densities / RE residuals computed on occupation bit strings, against the independently derived residuals, and against its own lower-level expansion; declared tensor symmetries checked by z3 on the expanded expression",
     text="t2_1, t1_2, t2_2, t3_2, t1_3, t2_3, p0_2_oo/vv, p0_3_oo/ov/vv, the three RE residuals, t2eri_1..7, t2eri_A/B, t2sq in models max(2,#occ) x max(2,#virt) (thorough: also 3o3v); stage 2 (cleared denominators) decides the fully expanded forms whose denominators adcgen multiplies out.",
     note="Real orbital basis. Quadruples (t4_2, its contribution to t2_3) vanish below 4o4v and are outside (t4_2's symmetry in 4o4v in the thorough tier). t2eri_1..7 / t2sq: only expansion consistency and declared symmetry (no independent oracle for their naming). Spin blocks: C15."),
+ "C11": dict(
+    level=TV, design="2/C11", engine="tvsmt",
+    technique="SMT translation validation of expand_intermediates / factor_intermediates / reduce_expr under the valuation in which every registered intermediate tensor takes the value of its fully expanded registered definition (evaluated from expand_itmd); two-stage z3 decision over integrals, orbital energies, free tensors and target assignments",
+    text="Products of an intermediate tensor with free tensors (any subset of indices contracted, optional Fock factor and second intermediate) and library results (E(2), E(3), second-order density, ip h/h and pp ph/ph second-order blocks, real and Fock-diagonalised); all requested subsets / types / max_order for factorisation; fully vs once expanded.",
+    note="Model 2o2v; second-order intermediates (third order and quadruples outside); cases in which the library does not finish within the per-case limit give no verdict (counted)."),
 }
 NA_REASON = "check not built yet in this round (planned, see DESIGN.md section 2)"
 
